@@ -32,7 +32,7 @@ RULE = ('Hypothesis histories of storage operations as the Queue issues them (wr
         'acknowledged message is live; distinct = distinct (history, crash index)')
 ASSUMPTIONS = ['POSIX rename/unlink atomicity; process death, not power loss (no fsync model)',
                'operations on one storage are sequential at the crash (overlap is judged by C15)',
-               'delivered marks are passed as lists, one round per message (multi-round marking is C03)']
+               'delivered marks are passed as lists of indexes into the recipient list get() currently returns (several rounds per message)']
 
 
 class Recorder(object):
@@ -168,17 +168,19 @@ def run_history(ops, same_tmp):
                 store.set_timestamp(m['id'], float(op[2]))
                 m['state'] = dict(before, ts=float(op[2]))
             elif kind == 'deliver':
-                if before['delivered']:
+                # a marking round: indexes are relative to the recipient list as get() currently returns it
+                outstanding = [k_ for k_ in range(len(m['rcpts'])) if k_ not in before['delivered']]
+                if len(outstanding) < 2:
                     history.append(None)
                     continue
-                idx = sorted(set(x % len(m['rcpts']) for x in op[2]))
-                if len(idx) >= len(m['rcpts']):
-                    idx = idx[:-1]
-                if not idx:
+                rel = sorted(set(x % len(outstanding) for x in op[2]))
+                if len(rel) >= len(outstanding):
+                    rel = rel[:-1]
+                if not rel:
                     history.append(None)
                     continue
-                store.set_recipients_delivered(m['id'], list(idx))
-                m['state'] = dict(before, delivered=idx)
+                store.set_recipients_delivered(m['id'], list(rel))
+                m['state'] = dict(before, delivered=sorted(before['delivered'] + [outstanding[r] for r in rel]))
             elif kind == 'remove':
                 store.remove(m['id'])
                 m['state'] = None
